@@ -23,9 +23,11 @@ impl Timestamp {
     pub fn as_secs(&self) -> (r: u64) ensures r == self.secs { self.secs }
     pub fn as_u64(&self) -> (r: u64) ensures r == self.secs { self.secs }
     pub fn from_secs(s: u64) -> (r: Timestamp) ensures r.secs == s { Timestamp { secs: s } }
+    // an arbitrary clock reading (marked as such so that contracts can quantify over "some reading")
     #[verifier::external_body]
-    pub fn now() -> (r: Timestamp) { unimplemented!() }
+    pub fn now() -> (r: Timestamp) ensures is_clock_reading(r.secs) { unimplemented!() }
 }
+pub uninterp spec fn is_clock_reading(t: u64) -> bool;
 
 // lexicographic order on byte strings of equal length (EventId / PublicKey derive Ord on [u8; 32])
 pub open spec fn lex_lt(a: Seq<u8>, b: Seq<u8>) -> bool
@@ -44,8 +46,20 @@ pub struct EventId { pub bytes: [u8; 32] }
 #[derive(Clone, Copy)]
 pub struct PublicKey { pub bytes: [u8; 32] }
 
-#[verifier::external_body]
-pub struct Kind { _p: u16 }
+// nostr::Kind: an event kind number; nostr compares kinds by their u16 code (Custom(445) == MlsGroupMessage)
+pub struct Kind { pub code: u16 }
+#[allow(non_upper_case_globals)]
+impl Kind {
+    pub const MlsKeyPackage: Kind = Kind { code: 443 };
+    pub const MlsWelcome: Kind = Kind { code: 444 };
+    pub const MlsGroupMessage: Kind = Kind { code: 445 };
+    pub fn as_u16(&self) -> (r: u16) ensures r == self.code { self.code }
+}
+impl PartialEq for Kind { fn eq(&self, other: &Self) -> (r: bool) { self.code == other.code } }
+impl vstd::std_specs::cmp::PartialEqSpecImpl for Kind {
+    open spec fn obeys_eq_spec() -> bool { true }
+    open spec fn eq_spec(&self, other: &Self) -> bool { self.code == other.code }
+}
 #[verifier::external_body]
 pub struct Tags { _p: u8 }
 // nostr::UnsignedEvent: public fields as in nostr 0.44
@@ -74,7 +88,7 @@ impl UnsignedEvent {
 }
 impl Clone for UnsignedEvent { #[verifier::external_body] fn clone(&self) -> (r: Self) ensures r == *self { unimplemented!() } }
 impl Clone for Tags { #[verifier::external_body] fn clone(&self) -> (r: Self) ensures r == *self { unimplemented!() } }
-impl Clone for Kind { #[verifier::external_body] fn clone(&self) -> (r: Self) ensures r == *self { unimplemented!() } }
+impl Clone for Kind { fn clone(&self) -> (r: Self) ensures r == *self { Kind { code: self.code } } }
 impl Copy for Kind {}
 #[verifier::external_body]
 pub struct RelayUrl { _p: u8 }
